@@ -7,6 +7,11 @@ package c17
 //
 // The oracle decodes jar contents with modelDecode (never with the library's CookieHandler) and the generator
 // forges cookies (other keys, other names, arbitrary values) with modelEncode.
+//
+// Keys (documented behaviour of gorilla/securecookie): the hash key is an HMAC-SHA256 key and may have ANY non-zero
+// length (all of its bytes count: crypto/hmac hashes keys longer than the 64-byte block, pads shorter ones); the
+// encryption key is an AES key and must be 16, 24 or 32 bytes long, a handler built with another length refuses to
+// encode or decode anything (usableKeys).
 
 import (
 	"bytes"
@@ -16,6 +21,7 @@ import (
 	"crypto/sha256"
 	"encoding/base64"
 	"encoding/gob"
+	"fmt"
 	"net/http"
 	"net/http/httptest"
 	"strconv"
@@ -68,6 +74,13 @@ func keysFor(name string, encrypt bool) ckeys {
 
 const maxCookieLen = 4096
 
+func validAESLen(n int) bool { return n == 16 || n == 24 || n == 32 }
+
+// usableKeys: a cookie handler with these keys can encode / decode at all.
+func usableKeys(k ckeys) bool {
+	return len(k.Hash) > 0 && (k.Block == nil || validAESLen(len(k.Block)))
+}
+
 var b64 = base64.URLEncoding
 
 func modelEncode(k ckeys, name, value string, ts int64, ivSeed string) string {
@@ -96,6 +109,9 @@ func modelEncode(k ckeys, name, value string, ts int64, ivSeed string) string {
 
 // modelDecode: does raw decode under keys k for cookie name `name`, and to which value? why names the first failing step.
 func modelDecode(k ckeys, name, raw string, now time.Time, maxAge int64) (value string, ok bool, why string) {
+	if !usableKeys(k) {
+		return "", false, "unusable-keys"
+	}
 	if len(raw) > maxCookieLen {
 		return "", false, "too-long"
 	}
@@ -148,6 +164,30 @@ func modelDecode(k ckeys, name, raw string, now time.Time, maxAge int64) (value 
 	return s, true, ""
 }
 
+// libMint: the cookie a cookie handler of the library built with keys k hands to a browser for (name, value) - what another
+// deployment of the library (other keys) or another replica of the RP (equal keys) would mint. ok=false when that handler
+// refuses (value too long for a cookie) or net/http drops the cookie (invalid name).
+func libMint(k ckeys, name, value string) (raw string, ok bool) {
+	h := httphelper.NewCookieHandler(k.Hash, k.Block)
+	rec := httptest.NewRecorder()
+	if err := h.SetCookie(rec, name, value); err != nil {
+		return "", false
+	}
+	for _, line := range rec.Header()["Set-Cookie"] {
+		if ck, err := http.ParseSetCookie(line); err == nil && ck.Name == name {
+			return ck.Value, true
+		}
+	}
+	return "", false
+}
+
+func libCheck(k ckeys, name, raw string) (string, bool) {
+	r := httptest.NewRequest("GET", "https://rp.example.com/cb", nil)
+	r.Header.Set("Cookie", name+"="+raw)
+	v, err := httphelper.NewCookieHandler(k.Hash, k.Block).CheckCookie(r, name)
+	return v, err == nil
+}
+
 // TestModelSelfTest (development aid, not part of the registered tiers): the model codec and the library's cookie
 // handler understand each other on the unchanged tree, in both directions, and agree on name / key binding.
 func TestModelSelfTest(t *testing.T) {
@@ -185,5 +225,98 @@ func TestModelSelfTest(t *testing.T) {
 				t.Fatalf("library accepts a state cookie under the pkce name")
 			}
 		}
+	}
+}
+
+// TestModelKeyLengths (development aid): model and library agree for hash keys of every length 1..130 (and 200, 1000)
+// and encryption keys nil/16/24/32, in both directions, and on the refusal of every cookie minted under a neighbouring
+// key (one byte flipped at any boundary, key extended, key cut); handlers with another AES key length are unusable.
+func TestModelKeyLengths(t *testing.T) {
+	now := time.Now()
+	const age = 86400 * 30
+	agree := func(what string, a, b ckeys) {
+		t.Helper()
+		for _, by := range []string{"lib", "model"} {
+			var raw string
+			if by == "lib" {
+				var ok bool
+				if raw, ok = libMint(b, "state", "v-"+what); !ok {
+					t.Fatalf("%s: library handler (hash %d, enc %d) cannot mint", what, len(b.Hash), len(b.Block))
+				}
+			} else {
+				raw = modelEncode(b, "state", "v-"+what, now.Unix(), what)
+			}
+			mv, mok, _ := modelDecode(a, "state", raw, now, age)
+			lv, lok := libCheck(a, "state", raw)
+			if mok != lok || mv != lv {
+				t.Fatalf("%s (minted by %s; A hash %d enc %d; B hash %d enc %d): model says (%q,%v), library says (%q,%v)", what, by, len(a.Hash), len(a.Block), len(b.Hash), len(b.Block), mv, mok, lv, lok)
+			}
+			same := bytes.Equal(a.Hash, b.Hash) && bytes.Equal(a.Block, b.Block)
+			if mok != same {
+				t.Fatalf("%s (minted by %s; A hash %d enc %d; B hash %d enc %d): accepted=%v but keys equal=%v", what, by, len(a.Hash), len(a.Block), len(b.Hash), len(b.Block), mok, same)
+			}
+		}
+	}
+	lens := []int{200, 1000}
+	for n := 1; n <= 130; n++ {
+		lens = append(lens, n)
+	}
+	for _, n := range lens {
+		for _, e := range []int{0, 16, 24, 32} {
+			a := ckeys{Hash: fill("kl-hash", n)}
+			a.Hash[n-1] |= 1
+			if e > 0 {
+				a.Block = fill("kl-block", e)
+			}
+			agree("equal", a, a)
+			for _, p := range []int{0, 15, 16, 31, 32, 63, 64, 65, n - 2, n - 1} {
+				if p < 0 || p >= n {
+					continue
+				}
+				b := ckeys{Hash: append([]byte{}, a.Hash...), Block: a.Block}
+				b.Hash[p] ^= 0x40
+				agree(fmt.Sprintf("flip@%d", p), a, b)
+			}
+			agree("extend", a, ckeys{Hash: append(append([]byte{}, a.Hash...), 7), Block: a.Block})
+			agree("extend-long", a, ckeys{Hash: append(append([]byte{}, a.Hash...), fill("sfx", 70)...), Block: a.Block})
+			for _, m := range []int{1, 16, 32, 64, 65, n - 1} {
+				if m >= 1 && m < n {
+					agree(fmt.Sprintf("cut@%d", m), a, ckeys{Hash: a.Hash[:m], Block: a.Block})
+				}
+			}
+			// encryption key: one byte differs, other valid length sharing the prefix, none vs some
+			if e > 0 {
+				b := ckeys{Hash: a.Hash, Block: append([]byte{}, a.Block...)}
+				b.Block[e-1] ^= 1
+				agree("enc-flip-last", a, b)
+				for _, e2 := range []int{16, 24, 32} {
+					if e2 < e {
+						agree("enc-cut", a, ckeys{Hash: a.Hash, Block: a.Block[:e2]})
+					} else if e2 > e {
+						agree("enc-extend", a, ckeys{Hash: a.Hash, Block: append(append([]byte{}, a.Block...), fill("x", e2-e)...)})
+					}
+				}
+				agree("enc-none", a, ckeys{Hash: a.Hash})
+			} else {
+				agree("enc-added", a, ckeys{Hash: a.Hash, Block: fill("kl-block", 16)})
+			}
+		}
+	}
+	// documented: AES keys are 16, 24 or 32 bytes long; everything else makes the handler unusable (and the model says so)
+	for _, e := range []int{1, 8, 15, 17, 23, 25, 31, 33, 40, 48, 64, 65} {
+		k := ckeys{Hash: fill("kl-hash", 32), Block: fill("kl-block", e)}
+		if usableKeys(k) {
+			t.Fatalf("model: AES key of %d bytes usable", e)
+		}
+		if _, ok := libMint(k, "state", "v"); ok {
+			t.Fatalf("library mints with an AES key of %d bytes", e)
+		}
+		raw := modelEncode(ckeys{Hash: k.Hash, Block: fill("kl-block", 32)}, "state", "v", now.Unix(), "s")
+		if _, ok := libCheck(k, "state", raw); ok {
+			t.Fatalf("library decodes with an AES key of %d bytes", e)
+		}
+	}
+	if _, ok := libMint(ckeys{Hash: nil}, "state", "v"); ok {
+		t.Fatalf("library mints without a hash key")
 	}
 }
